@@ -21,17 +21,27 @@ THEOREMS = [
     # base case and dict algebra
     "Registry.inv_init", "Registry.inv_holds_init",
     "Registry.dset_get_same", "Registry.dset_get_other", "Registry.ddel_get_other",
+    # the module table (duplicate module names): System._addUnprocessedModule / _handleDuplicateModule / _remove
+    "ModTable.inv_init", "ModTable.step_ok", "ModTable.inv_step", "ModTable.inv_run", "ModTable.run_ok",
+    "ModTable.registered_under_chain_name", "ModTable.pending_are_registered", "ModTable.parent_registered",
+    "ModTable.contents_registered", "ModTable.roots_registered_unique", "ModTable.winner_rule",
+    "ModTable.old_replaced_package_counterexample",
 ]
 RULE = ("(a) operation logs recorded from the real System.addObject / Documentable.reparent while analysing generated "
         "projects (duplicates, nested classes, property setters, re-export moves, cycles), replayed on the Lean Registry "
         "model and compared state for state (allobjects keys in order, every object's name/parent/class/contents); "
         "(b) random API histories (add / reparent in any interleaving, incl. misuse) driven against the real API and the "
-        "model; (c) the invariant evaluated directly on the real System. Non-trivial = the history contains at least one "
-        "duplicate registration or one reparent.")
+        "model; (c) the invariant evaluated directly on the real System; (d) random histories of module adds with duplicate "
+        "names at root and nested level (packages, modules, C modules) against the Lean ModTable model state for state "
+        "(allobjects, rootobjects, unprocessed_modules, contents), then processed and judged by the direct oracle, plus the "
+        "same through System.addPackage on directories. Non-trivial = the history contains at least one "
+        "duplicate registration, one reparent or one duplicate module name.")
 ASSUMPTIONS = [
     "the model keys the registry by name paths; this equals the code's dotted strings when no name contains a '.'; "
     "histories in which two different paths join to the same dotted string are compared by the direct oracle only",
-    "duplicate *modules* (_handleDuplicateModule/_remove) are exercised by the direct oracle, not by the model",
+    "module table (ModTable): all modules are added before any is processed (so `contents` of a module holds modules "
+    "only), and the parent argument is None or a package registered at that moment — what analyzeModule / addPackage / "
+    "addModuleString pass; histories that break this are compared state for state with the model but are outside the theorems",
 ]
 PARTIAL: Dict[str, str] = {}   # inv_step / inv_run are proved in full (incl. that the `name i` index of handleDuplicate is free)
 
@@ -142,10 +152,22 @@ def oracle_system(system, created: List[Any], builder_made: bool) -> List[Tuple[
             bad.append(("registered-twice", f"{o!r} under {seen_ids[id(o)]!r} and {k!r}"))
         seen_ids[id(o)] = k
     roots = set(id(r) for r in system.rootobjects)
+    # the registry is closed under `parent`; the roots are registered and pairwise differently named
+    for k, o in system.allobjects.items():
+        if o.parent is not None and system.allobjects.get(chain_name(o.parent)) is not o.parent:
+            bad.append(("parent-unregistered", f"allobjects[{k!r}] has the parent {o.parent!r}, which is not the registry's entry for {chain_name(o.parent)!r}"))
+    rootnames: Dict[str, Any] = {}
+    for r in system.rootobjects:
+        if system.allobjects.get(r.name) is not r:
+            bad.append(("root-unregistered", f"rootobjects has {r!r}, which is not the registry's entry for {r.name!r}"))
+        if r.name in rootnames and rootnames[r.name] is not r:
+            bad.append(("root-name-shared", f"two roots are named {r.name!r} (both are written to {r.name}.html)"))
+        rootnames[r.name] = r
     for o in created:
         if id(o) not in seen_ids:
-            # a module replaced by a later one of the same name is dropped from the registry on purpose
-            if isinstance(o, model.Module) and system.allobjects.get(o.fullName()) is not o and _replaced_module(system, o):
+            # a module replaced by a later one of the same name (or one that lost against an earlier C module /
+            # package) is dropped from the registry on purpose, with everything below it
+            if _under_replaced_module(system, o):
                 continue
             bad.append(("unregistered", f"{o!r} was added but is not in allobjects"))
             continue
@@ -171,6 +193,10 @@ def oracle_system(system, created: List[Any], builder_made: bool) -> List[Tuple[
             if o.kind not in (model.DocumentableKind.METHOD, model.DocumentableKind.CLASS_METHOD,
                               model.DocumentableKind.STATIC_METHOD):
                 bad.append(("function-in-class-not-method", f"{o!r} kind {o.kind}"))
+        # (kinds are given by the AST builder: only analysis results are judged, not raw API histories)
+        if builder_made and isinstance(o, model.Function) and not isinstance(o.parent, model.Class) and o.kind in (
+                model.DocumentableKind.METHOD, model.DocumentableKind.CLASS_METHOD, model.DocumentableKind.STATIC_METHOD):
+            bad.append(("method-outside-class", f"{o!r} has kind {o.kind} but sits in {o.parent!r}"))
         if builder_made and isinstance(o, model.Function) and isinstance(o.parent, model.Module):
             if o.kind is not model.DocumentableKind.FUNCTION:
                 bad.append(("function-in-module-kind", f"{o!r} kind {o.kind}"))
@@ -240,6 +266,17 @@ def _replaced_module(system, o) -> bool:
     return cur is not None and cur is not o
 
 
+def _under_replaced_module(system, o) -> bool:
+    """`o` or a module above it lost its name to another module (System._handleDuplicateModule)"""
+    from pydoctor import model
+    a, n = o, 0
+    while a is not None and n < 1000:
+        if isinstance(a, model.Module) and _replaced_module(system, a):
+            return True
+        a, n = a.parent, n + 1
+    return False
+
+
 def name_path(o) -> Tuple[str, ...]:
     parts = []
     n = 0
@@ -302,6 +339,13 @@ CORPUS = [
     # a nested module / class named like the single root
     [("spam", True, "class spam:\n    pass\n", None), ("spam.spam", False, "def f(): pass\n", "spam"),
      ("spam.eggs", True, "", "spam"), ("spam.eggs.spam", False, "class K: pass\n", "spam.eggs")],
+    # a module-level alias of a class member is re-exported (fixed 66cb133: the METHOD and the nested class were moved
+    # out of class C into the package)
+    [("pkg", True, "from pkg.origin import meth, K\n__all__ = ['meth', 'K']\n", None),
+     ("pkg.origin", False, "class C:\n    def meth(self): pass\n    @staticmethod\n    def st(): pass\n    class K:\n        x = 1\n"
+                            "meth = C.meth\nK = C.K\n", "pkg")],
+    [("pkg", True, "from ._o import st as s2\n__all__ = ['s2']\n", None),
+     ("pkg._o", False, "class C:\n    @staticmethod\n    def st(): pass\nst = C.st\n", "pkg")],
 ]
 
 
@@ -312,7 +356,7 @@ def stream_projects(ctx: Ctx, n: int) -> None:
         if i < len(CORPUS):
             units = [Unit(q, p, s, par) for q, p, s, par in CORPUS[i]]
         else:
-            g = Gen(ctx.rng, Knobs(dotted_names=True))
+            g = Gen(ctx.rng, Knobs(dotted_names=True, member_alias=0.15))
             units = g.project()
         with Recorder() as rec:
             crashed = None
@@ -471,6 +515,15 @@ def zope_project(rng) -> List[Any]:
         base = "Interface" if k == 0 or rng.random() < 0.6 else ifaces[rng.randrange(k)]
         isrc += ["class %s(%s):" % (n, base), "    '''doc of %s'''" % n, "    def meth%d(a):" % k, "        '''meth doc'''", "    attr%d = Attribute('an attribute')" % k]
     isrc += ["class NotAnInterface:", "    pass"]
+    # interfaces made by CALLING an InterfaceClass subclass: at module level (documented as a class), in a class body,
+    # and inside function / method bodies (local names: nothing to document, certainly no child of a function)
+    dyn = rng.random() < 0.5
+    if dyn:
+        isrc[0] = "from zope.interface import Interface, Attribute\nfrom zope.interface.interface import InterfaceClass"
+        isrc += ["class MyIC(InterfaceClass):", "    pass", "IDynamic = MyIC('IDynamic')",
+                 "def make_marker(name):", "    ILocal = MyIC(name)", "    return ILocal",
+                 "class Registry:", "    IInBody = MyIC('IInBody')", "    def register(self, name):", "        IMade = MyIC(name)",
+                 "        self.made = IMade", "        return IMade"]
     reexport = rng.random() < 0.4
     units = []
     pkg_init = []
@@ -528,6 +581,8 @@ def stream_interfaces(ctx: Ctx, n: int) -> None:
             ctx.fail("analysis-crash:" + type(e).__name__, {"units": src}, f"{type(e).__name__}: {e}")
             continue
         objs = list(system.allobjects.values())
+        for sig, what in oracle_system(system, objs, True):
+            ctx.fail("interfaces:" + sig, {"units": src}, what)
         oid = {id(o): k for k, o in enumerate(objs)}
         implementers = [o for o in objs if isinstance(o, (Z.ZopeInterfaceClass, Z.ZopeInterfaceModule))]
         interfaces = [o for o in objs if isinstance(o, Z.ZopeInterfaceClass) and o.isinterface]
@@ -676,11 +731,343 @@ def stream_api(ctx: Ctx, n: int) -> None:
                     ctx.count("model-inv-false")
 
 
+# ---------------------------------------------------------------- the module table (duplicate module names)
+
+MT_NAMES = ["mod", "a", "b", "sub"]
+
+# deterministic corpus: (kind, name, parent index or None); kinds P package, M module, C C-module, Q C-package
+MT_CORPUS = [
+    # the witness of 6850302: a second root package `mod` replaces the first one, whose sub-module was already added
+    [("P", "mod", None), ("M", "suba", 0), ("P", "mod", None), ("M", "subb", 2)],
+    # module-level variants
+    [("M", "mod", None), ("M", "mod", None)],
+    [("M", "mod", None), ("P", "mod", None), ("M", "suba", 1)],
+    [("P", "mod", None), ("M", "suba", 0), ("M", "mod", None)],
+    [("C", "mod", None), ("M", "mod", None)],
+    [("C", "mod", None), ("P", "mod", None), ("M", "suba", 1)],
+    [("M", "mod", None), ("C", "mod", None), ("M", "mod", None)],
+    # the same one level down, and two levels of sub-packages below the replaced one
+    [("P", "top", None), ("P", "mod", 0), ("M", "suba", 1), ("P", "mod", 0), ("M", "subb", 3)],
+    [("P", "top", None), ("M", "mod", 0), ("M", "mod", 0), ("C", "mod", 0), ("M", "mod", 0), ("P", "mod", 0)],
+    [("P", "mod", None), ("P", "sub", 0), ("M", "x", 1), ("P", "deep", 1), ("M", "y", 3), ("M", "z", 0),
+     ("P", "mod", None), ("P", "sub", 6), ("M", "x", 7)],
+    [("P", "mod", None), ("P", "sub", 0), ("M", "x", 1), ("P", "sub", 0), ("M", "x", 3), ("M", "x", 3)],
+    [("Q", "mod", None), ("M", "a", 0), ("M", "mod", None), ("Q", "mod", None), ("C", "a", 3)],
+]
+
+
+def mt_kind(o) -> str:
+    from pydoctor import model
+    pk = isinstance(o, model.Package)
+    return ("Q" if pk else "C") if o._is_c_module else ("P" if pk else "M")
+
+
+def mt_drive(ops):
+    """the history against the real System (public entry points where they apply); returns system, objects in
+    creation order, per-op outcomes, and per-op what the winner rule had to decide"""
+    import types
+    from pathlib import Path
+    from pydoctor import model
+    system = model.System()
+    builder = system.systemBuilder(system)
+    objs: List[Any] = []
+    outcomes: List[str] = []
+    decided: List[str] = []
+    seen: List[Any] = []
+    orig = system._addUnprocessedModule
+
+    def spy(mod):
+        if not any(m is mod for m in seen):
+            seen.append(mod)
+        return orig(mod)
+    system._addUnprocessedModule = spy
+    for i, (kind, name, parent) in enumerate(ops):
+        po = None if parent is None else objs[parent]
+        body = "class K%d: pass\n" % i
+        prefix = "" if po is None else po.fullName() + "."
+        first = system.allobjects.get(prefix + name)
+        if first is None:
+            decided.append("fresh")
+        elif first._is_c_module and kind not in "PQ":
+            decided.append("keep:c-module")
+        elif isinstance(first, model.Package) and kind not in "PQ":
+            decided.append("keep:package")
+        else:
+            decided.append("replace:" + ("root" if first.parent is None else "nested") + (":with-contents" if first.contents else ""))
+        try:
+            with contextlib.redirect_stdout(io.StringIO()):
+                if kind in "PM" and (po is None or (isinstance(po, model.Package) and system.allobjects.get(po.fullName()) is po)):
+                    # SystemBuilder.addModuleString looks the parent up by name and asserts that it is a Package
+                    n0 = len(seen)
+                    try:
+                        builder.addModuleString(body, name, parent_name=None if po is None else po.fullName(), is_package=(kind == "P"))
+                    finally:
+                        if len(seen) > n0:
+                            objs.append(seen[-1])
+                else:
+                    mod = (system.Package if kind in "PQ" else system.Module)(
+                        system, name, po, Path("/nonexistent/%s.so" % name) if kind in "CQ" else None)
+                    if kind in "CQ":
+                        # what System.introspectModule does with the imported extension module
+                        pm = types.ModuleType(name)
+                        setattr(pm, "K%d" % i, type("K%d" % i, (), {}))
+                        mod._is_c_module = True
+                        mod._py_mod = pm
+                    else:
+                        mod._py_string = body
+                    objs.append(mod)
+                    system._addUnprocessedModule(mod)
+            outcomes.append("ok")
+        except RecursionError:
+            outcomes.append("RecursionError")
+            break
+        except Exception as e:
+            outcomes.append(type(e).__name__)
+            break
+    del system._addUnprocessedModule
+    return system, objs, outcomes, decided
+
+
+def mt_dump(system, objs) -> str:
+    ids = {id(o): i for i, o in enumerate(objs)}
+
+    def oid(o):
+        return str(ids.get(id(o), "?"))
+    allp = " ".join("%s=%s" % (enc(k), oid(o)) for k, o in system.allobjects.items())
+    roots = ",".join(oid(o) for o in system.rootobjects) or "-"
+    unproc = ",".join(oid(o) for o in system.unprocessed_modules) or "-"
+    toks = []
+    for i, o in enumerate(objs):
+        cont = ",".join("%s=%s" % (enc(k), oid(c)) for k, c in o.contents.items())
+        toks.append("%d:%s:%s:%s:[%s]" % (i, mt_kind(o), enc(o.name), "-" if o.parent is None else oid(o.parent), cont))
+    return "all " + allp + " | roots " + roots + " | unproc " + unproc + " | objs " + " ".join(toks)
+
+
+def mt_pre_ok(ops) -> bool:
+    """the precondition of the theorems, evaluated on the history alone: every parent is a package that is
+    registered when the op arrives (a replay of the winner rule on names; independent of the model)"""
+    reg: Dict[Tuple[str, ...], int] = {}
+    path: Dict[int, Tuple[str, ...]] = {}
+    kinds: Dict[int, str] = {}
+    for i, (kind, name, parent) in enumerate(ops):
+        if parent is not None:
+            if kinds[parent] not in "PQ" or reg.get(path[parent]) != parent:
+                return False
+        p = (path[parent] if parent is not None else ()) + (name,)
+        path[i], kinds[i] = p, kind
+        first = reg.get(p)
+        if first is not None and kind not in "PQ" and kinds[first] in "CQP":
+            continue
+        if first is not None:
+            for k in [k for k in reg if k[:len(p)] == p]:
+                del reg[k]
+        reg[p] = i
+    return True
+
+
+def mt_random_ops(rng, quick: bool):
+    n = rng.randint(1, 9 if quick else 16)
+    misuse = rng.random() < 0.12
+    ops: List[Tuple[str, str, Optional[int]]] = []
+    reg: Dict[Tuple[str, ...], int] = {}
+    path: Dict[int, Tuple[str, ...]] = {}
+    for i in range(n):
+        pk = [j for j, (k, _, _) in enumerate(ops) if k in "PQ" and (misuse or reg.get(path[j]) == j)]
+        if misuse and ops and rng.random() < 0.3:
+            pk = list(range(len(ops)))
+        parent = rng.choice(pk) if pk and rng.random() < 0.75 else None
+        kind = rng.choice("PPPMMMMCQ" if parent is not None or rng.random() < 0.7 else "PPPPM")
+        name = rng.choice(MT_NAMES[:2] if rng.random() < 0.6 else MT_NAMES)
+        ops.append((kind, name, parent))
+        # bookkeeping of what is registered (only used to pick parents; mt_pre_ok decides)
+        p = (path[parent] if parent is not None else ()) + (name,)
+        path[i] = p
+        first = reg.get(p)
+        if first is not None and kind not in "PQ" and ops[first][0] in "CQP":
+            continue
+        if first is not None:
+            for k in [k for k in reg if k[:len(p)] == p]:
+                del reg[k]
+        reg[p] = i
+    return ops
+
+
+def mt_after(ctx: Ctx, system, objs, payload) -> None:
+    """`system.process()`, then the C02 oracle on the result and "exactly the registered modules are analysed" """
+    from pydoctor import model
+    registered = {id(o) for o in system.allobjects.values()}
+    pending = {id(o) for o in system.unprocessed_modules}
+    if pending != registered:
+        lost = [o.fullName() for o in objs if id(o) in registered and id(o) not in pending]
+        extra = [o.fullName() for o in objs if id(o) in pending and id(o) not in registered]
+        ctx.fail("modtable:pending-is-not-the-registered-modules", payload,
+                 f"after the adds: registered but not pending {lost}, pending but not registered {extra}")
+    try:
+        with contextlib.redirect_stdout(io.StringIO()):
+            system.process()
+    except Exception as e:
+        ctx.fail("modtable:process-crash:" + type(e).__name__, payload, f"{type(e).__name__}: {e}")
+        return
+    for o in objs:
+        done = o.state is model.ProcessingState.PROCESSED
+        if done and id(o) not in registered:
+            ctx.fail("modtable:unregistered-module-analysed", payload, f"{o!r} lost its name to another module and was analysed all the same")
+        if not done and id(o) in registered:
+            ctx.fail("modtable:registered-module-not-analysed", payload, f"{o!r} is registered but was not analysed")
+    for i, o in enumerate(objs):
+        k = o.contents.get("K%d" % i)
+        if id(o) in registered and (k is None or system.allobjects.get(o.fullName() + ".K%d" % i) is not k):
+            ctx.fail("modtable:class-of-registered-module-missing", payload, f"class K{i} of {o!r} is not registered")
+    everything = list(objs) + [o for o in system.allobjects.values() if not any(o is m for m in objs)]
+    for sig, what in oracle_system(system, everything, True):
+        ctx.fail(sig, payload, what)
+
+
+def stream_modtable(ctx: Ctx, n: int) -> None:
+    """System._addUnprocessedModule / _handleDuplicateModule / _remove against ModTable, state for state, on random
+    add histories with duplicate names; then the direct oracle on the processed system"""
+    reqs, impls, pay = [], [], []
+    for i in range(n + len(MT_CORPUS)):
+        ops = MT_CORPUS[i] if i < len(MT_CORPUS) else mt_random_ops(ctx.rng, ctx.quick)
+        toks = ["A|%s|%s|%s" % (k, enc(nm), "-" if p is None else p) for k, nm, p in ops]
+        system, objs, outcomes, decided = mt_drive(ops)
+        pre = mt_pre_ok(ops)
+        payload = {"modtable-ops": toks}
+        clean = outcomes[-1] == "ok"
+        dups = [d for d in decided if d != "fresh"]
+        ctx.case("modtable " + " ".join(toks), bool(dups), {"ops": toks, "decided": decided} if dups and i in (0, len(MT_CORPUS)) else None)
+        ctx.count("modtable:histories")
+        ctx.count("modtable:histories-meeting-the-precondition" if pre else "modtable:histories-misuse")
+        ctx.count("modtable:ops", len(ops))
+        ctx.count("modtable:outcome:" + outcomes[-1])
+        for d in decided:
+            ctx.count("modtable:op:" + d)
+        depth = 0
+        for o in objs:
+            d, p = 0, o.parent
+            while p is not None and d < 100:
+                d, p = d + 1, p.parent
+            depth = max(depth, d)
+        ctx.count("modtable:max-depth:%d" % depth)
+        reqs.append("modtable run " + " ".join(toks))
+        impls.append((outcomes, pre, mt_dump(system, objs) if clean else None))
+        pay.append(payload)
+        if pre:
+            if not clean:
+                ctx.fail("modtable:add-raises:" + outcomes[-1], payload, f"adding the modules raised {outcomes[-1]} at op {len(outcomes) - 1}")
+            else:
+                mt_after(ctx, system, objs, payload)
+    if ctx.model_ok and reqs:
+        outs = ctx.driver.run_parallel(reqs)
+        for mo, (outcomes, pre, dump), p in zip(outs, impls, pay):
+            ctx.traces_validated += 1
+            parts = mo.split(" | ", 3)
+            if len(parts) != 4 or not parts[0].startswith("ok "):
+                ctx.disagree("modtable", p, mo[:500], "unparsable")
+                continue
+            m_out = parts[0][3:].split(",")
+            if m_out[:len(outcomes)] != outcomes or (outcomes[-1] == "ok" and len(m_out) != len(outcomes)):
+                ctx.disagree("modtable-outcome", p, m_out, outcomes)
+                continue
+            if parts[1] != "pre " + ("true" if pre else "false"):
+                ctx.disagree("modtable-precondition", p, parts[1], "pre %s" % pre)
+            if dump is not None and parts[3] != dump:
+                ctx.disagree("modtable-state", p, parts[3][:3000], dump[:3000])
+            if pre and parts[2] != "inv true":
+                ctx.disagree("modtable-invariant", p, parts[2], "inv true (history meets the precondition)")
+
+
+def stream_modtable_fs(ctx: Ctx, n: int) -> None:
+    """the same through the file system: root directories that hold a package of the same name, System.addPackage"""
+    import shutil
+    import tempfile
+    from pathlib import Path
+    from pydoctor import model
+    rng = ctx.rng
+    reqs, impls, pay = [], [], []
+    for i in range(n):
+        tmp = Path(tempfile.mkdtemp(prefix="c02mt"))
+        try:
+            layout = []
+            for r in range(2 if i == 0 else rng.randint(2, 3)):
+                files = {"mod/__init__.py": "class I%d: pass\n" % r}
+                names = ["suba", "subb"][r:r + 1] if i == 0 else rng.sample(["suba", "subb", "x"], rng.randint(0, 2))
+                for nm in names:
+                    files["mod/%s.py" % nm] = "class S%d_%s: pass\n" % (r, nm)
+                if i > 0 and rng.random() < 0.6:
+                    files["mod/sub/__init__.py"] = ""
+                    for nm in rng.sample(["x", "y"], rng.randint(0, 2)):
+                        files["mod/sub/%s.py" % nm] = "class D%d_%s: pass\n" % (r, nm)
+                if i > 0 and rng.random() < 0.3:
+                    files = {"mod.py": "class M%d: pass\n" % r}      # a plain module of that name among the roots
+                layout.append(files)
+                for rel, src in files.items():
+                    f = tmp / ("r%d" % r) / rel
+                    f.parent.mkdir(parents=True, exist_ok=True)
+                    f.write_text(src)
+            system = model.System()
+            objs: List[Any] = []
+            orig = system._addUnprocessedModule
+
+            def spy(mod, objs=objs, orig=orig):
+                if not any(m is mod for m in objs):
+                    objs.append(mod)
+                return orig(mod)
+            system._addUnprocessedModule = spy
+            crashed = None
+            try:
+                with contextlib.redirect_stdout(io.StringIO()):
+                    for r, files in enumerate(layout):
+                        if "mod.py" in files:
+                            system.addModuleFromPath(tmp / ("r%d" % r) / "mod.py", None)
+                        else:
+                            system.addPackage(tmp / ("r%d" % r) / "mod", None)
+            except Exception as e:
+                crashed = type(e).__name__
+            del system._addUnprocessedModule
+            ids = {id(o): k for k, o in enumerate(objs)}
+            toks = ["A|%s|%s|%s" % (mt_kind(o), enc(o.name), "-" if o.parent is None else ids[id(o.parent)]) for o in objs]
+            payload = {"roots": layout, "modtable-ops": toks}
+            ctx.count("modtable-fs:projects")
+            ctx.count("modtable-fs:modules", len(objs))
+            ctx.case("modtable-fs " + repr(layout), True)
+            if crashed:
+                ctx.fail("modtable:add-raises:" + crashed, payload, f"System.addPackage raised {crashed}")
+                continue
+            reqs.append("modtable run " + " ".join(toks))
+            impls.append("ok " + ",".join(["ok"] * len(toks)) + " | pre true | inv true | " + mt_dump(system, objs))
+            pay.append(payload)
+            # the bodies differ from the in-memory stream's: only the generic part of mt_after applies
+            registered = {id(o) for o in system.allobjects.values()}
+            if {id(o) for o in system.unprocessed_modules} != registered:
+                ctx.fail("modtable:pending-is-not-the-registered-modules", payload, "after addPackage: pending modules and registered modules differ")
+            try:
+                with contextlib.redirect_stdout(io.StringIO()):
+                    system.process()
+            except Exception as e:
+                ctx.fail("modtable:process-crash:" + type(e).__name__, payload, f"{type(e).__name__}: {e}")
+                continue
+            for o in objs:
+                done = o.state is model.ProcessingState.PROCESSED
+                if done and id(o) not in registered:
+                    ctx.fail("modtable:unregistered-module-analysed", payload, f"{o!r} lost its name to another module and was analysed all the same")
+                if not done and id(o) in registered:
+                    ctx.fail("modtable:registered-module-not-analysed", payload, f"{o!r} is registered but was not analysed")
+            everything = list(objs) + [o for o in system.allobjects.values() if not any(o is m for m in objs)]
+            for sig, what in oracle_system(system, everything, True):
+                ctx.fail(sig, payload, what)
+        finally:
+            shutil.rmtree(tmp, ignore_errors=True)
+    ctx.compare("modtable-fs", reqs, impls, pay)
+
+
 def run(ctx: Ctx) -> None:
     stream_projects(ctx, 250 if ctx.quick else 6000)
     stream_api(ctx, 1500 if ctx.quick else 40000)
     stream_postprocess(ctx, 250 if ctx.quick else 4000)
     stream_interfaces(ctx, 150 if ctx.quick else 3000)
+    stream_modtable(ctx, 400 if ctx.quick else 20000)
+    stream_modtable_fs(ctx, 6 if ctx.quick else 60)
 
 
 def replay(ctx: Ctx, obj) -> int:
